@@ -2,6 +2,7 @@
 
 pub mod cases;
 pub mod dpll;
+pub mod extcall;
 pub mod gen;
 pub mod monitor;
 pub mod oracle;
